@@ -13,7 +13,8 @@ use zkabacus_crypto as za;
 
 pub struct C01;
 
-pub const STRATEGIES: [(&str, usize); 9] = [
+pub const STRATEGIES: [(&str, usize); 10] = [
+    ("compensating-shift", 5),
     ("control", 1),
     ("lying-honest-prover", 7),
     ("cross-slot", 4),
@@ -485,6 +486,33 @@ fn run_case(o: &mut Outcome, case: &Value) {
             let at = attack(m, &ag, seed, &draft, &mut build, o);
             accepted = if at.accepted { Some((at, last_hidden, dt.st.bf, dt.cl.bf)) } else { None };
         }
+        "compensating-shift" => {
+            // two cooperating sub-proofs: the state commits to the agreed value minus delta in one
+            // slot, the close state to the agreed value plus delta; T's are honest and the responses
+            // are those of the TRUE statement. Each sub-proof's Schnorr equation fails on its own,
+            // but the two errors cancel in any check that only looks at the sum.
+            let slot = [3usize, 4, 0, 2, 1][variant % 5];
+            let dt = est_draft_linked(m, &truth, &mut s);
+            let mut h = truth.clone();
+            h.st[slot] -= delta;
+            h.cl[slot] += delta;
+            site = format!("compensating-shift/slot{}", slot);
+            o.bump("fault.byzantine.compensating-shift");
+            let c_st = refc::commit_g1(&g, &ys, &dt.st.bf, &h.st);
+            let c_cl = refc::commit_g1(&g, &ys, &dt.cl.bf, &h.cl);
+            let mut ov0 = EstOverrides::default();
+            ov0.st_c = Some(c_st);
+            ov0.cl_c = Some(c_cl);
+            let draft = assemble_est(&template, &dt, None, &ov0);
+            let mut build = |c: &Scalar| {
+                let mut ov = EstOverrides::default();
+                ov.st_c = Some(c_st);
+                ov.cl_c = Some(c_cl);
+                assemble_est(&template, &dt, Some(c), &ov)
+            };
+            let at = attack(m, &ag, seed, &draft, &mut build, o);
+            accepted = if at.accepted { Some((at, h, dt.st.bf, dt.cl.bf)) } else { None };
+        }
         "replayed-draft" => {
             // a proof accepted in one session (true there) presented in another session whose agreed
             // values differ: other context / other balances
@@ -598,7 +626,7 @@ impl Prop for C01 {
         v
     }
     fn rule(&self) -> String {
-        "one case = one session between the real merchant (initialize, then activate) and a Byzantine customer: fresh agreed (channel id, balances from the boundary lattice or random, context); after the accept-the-truth control the actor runs one strategy of the family {honest prover lying in one slot (7), cross-slot substitution (4), one violated relation / invalid sub-proof (12), post-challenge choice of each revealed commitment scalar (4), of each scalar commitment T (2), of each commitment C (2), of several at once (3), replay of an accepted proof under other agreed values (2)} using probe -> read the merchant's challenge through the hook -> adapt -> resubmit (up to three rounds). Distinct = distinct (strategy, variant, balances, seed); non-trivial = an attack (not just the control) was run".into()
+        "one case = one session between the real merchant (initialize, then activate) and a Byzantine customer: fresh agreed (channel id, balances from the boundary lattice or random, context); after the accept-the-truth control the actor runs one strategy of the family {honest prover lying in one slot (7), cross-slot substitution (4), one violated relation / invalid sub-proof (12), compensating shifts between the two sub-proofs (5), post-challenge choice of each revealed commitment scalar (4), of each scalar commitment T (2), of each commitment C (2), of several at once (3), replay of an accepted proof under other agreed values (2)} using probe -> read the merchant's challenge through the hook -> adapt -> resubmit (up to three rounds). Distinct = distinct (strategy, variant, balances, seed); non-trivial = an attack (not just the control) was run".into()
     }
     fn assumptions(&self) -> Vec<String> {
         vec![
@@ -608,6 +636,6 @@ impl Prop for C01 {
         ]
     }
     fn required_probes(&self, _tier: Tier) -> Vec<&'static str> {
-        vec!["probe.control_accepted", "probe.attack_refused", "fault.byzantine.adaptive-revealed-scalar", "fault.byzantine.adaptive-scalar-commitment", "fault.byzantine.adaptive-commitment", "fault.byzantine.per-relation", "fault.byzantine.cross-slot", "fault.byzantine.lying-honest-prover"]
+        vec!["probe.control_accepted", "probe.attack_refused", "fault.byzantine.adaptive-revealed-scalar", "fault.byzantine.adaptive-scalar-commitment", "fault.byzantine.adaptive-commitment", "fault.byzantine.per-relation", "fault.byzantine.cross-slot", "fault.byzantine.lying-honest-prover", "fault.byzantine.compensating-shift"]
     }
 }
